@@ -219,10 +219,10 @@ def const_array(text):
     """`const N: &[T] = &[e1, .., en];`  ==>  `const N: [T; n] = [e1, .., en];` (Verus has no exec array-to-slice coercion in a const);
     n is counted from the initializer, so dropping or adding an element stays visible to every contract that mentions N."""
     m = rs.mask(text)
-    mm = re.search(r'const\s+(\w+)\s*:\s*&\s*(?:\'static\s+)?\[([^\]]+)\]\s*=\s*&\s*\[', text)
+    mm = re.search(r'(?:const|static)\s+(\w+)\s*:\s*&\s*(?:\'static\s+)?\[([^\]]+)\]\s*=\s*&\s*\[', text)
     if not mm:
         from vunit import Undecided
-        raise Undecided('T4 const_array: not a `const N: &[T] = &[..]` item')
+        raise Undecided('T4 const_array: not a `const|static N: &[T] = &[..]` item')
     ob = mm.end() - 1
     cb = rs.match_close(text, m, ob)
     inner = text[ob + 1:cb]
@@ -231,6 +231,7 @@ def const_array(text):
     cur = ''
     for i_, c_ in enumerate(inner):
         if m[ob + 1 + i_] != rs.CODE:
+            cur += c_
             continue
         if c_ in '([{':
             d += 1
@@ -245,7 +246,8 @@ def const_array(text):
     if re.sub(TAG, '', cur).strip():
         n += 1
     vis = ''
-    new = 'const %s: [%s; %d] = [%s]' % (mm.group(1), mm.group(2).strip(), n, inner)
+    ety = re.sub(r"&\s*(?!')", "&'static ", mm.group(2).strip())
+    new = 'const %s: [%s; %d] = [%s]' % (mm.group(1), ety, n, inner)
     return text[:mm.start()] + new + text[cb + 1:], 'const_array: `const %s: &[%s]` with %d elements kept as an array' % (mm.group(1), mm.group(2).strip(), n)
 
 
